@@ -48,7 +48,7 @@ func newEngine() (*Engine, error) {
 	}
 	prog, spkgs := ssautil.AllPackages(pkgs, ssa.NaiveForm|ssa.GlobalDebug)
 	prog.Build()
-	e := &Engine{prog: prog, pkgs: map[string]*ssa.Package{}, d: newDecls(), structs: map[string]*StructInfo{}, tags: map[string]int{},
+	e := &Engine{atDeclared: map[string]bool{}, prog: prog, pkgs: map[string]*ssa.Package{}, d: newDecls(), structs: map[string]*StructInfo{}, tags: map[string]int{},
 		boxed: map[string]bool{}, strlits: map[string]string{}, funcs: map[string]*ssa.Function{}, contracts: map[string]*Contract{},
 		ifaceContracts: map[string]*Contract{}, specFuncs: map[string]*SpecFunc{}, ghosts: map[string]*GhostDecl{}, chans: map[string]*ChanDecl{},
 		notes: map[string]bool{}, modsets: map[*ssa.Function]*ModSet{}, externs: map[string]externFn{}, heapSorts: map[string]string{},
